@@ -3,15 +3,38 @@
         match kind {
             // math <fn> <bits..>: run the helper; UB is only observable under Miri
             "math" => {
-                let r = match a[0].as_str() {
-                    "powf" => yuvxyb_math::powf(fb(&a[1]), fb(&a[2])),
-                    "expf" => yuvxyb_math::expf(fb(&a[1])),
-                    "cbrtf" => yuvxyb_math::cbrtf(fb(&a[1])),
+                // the C18 contracts as written, f64 libm as the oracle
+                let (r, bad): (f32, Option<String>) = match a[0].as_str() {
+                    "powf" => {
+                        let (x, y) = (fb(&a[1]), fb(&a[2]));
+                        let r = yuvxyb_math::powf(x, y);
+                        let t = f64::from(x).powf(f64::from(y));
+                        let dom = x.is_normal() && x > 0.0 && y.abs() <= 80.0 && t >= 1e-35 && t <= 1e35;
+                        let rel = ((f64::from(r) - t) / t).abs();
+                        (r, if dom && rel > 2.5e-4 + 8e-6 * f64::from(y.abs()) { Some(format!("powf({},{}) = {} vs {} (rel {:.3e})", x, y, r, t, rel)) } else { None })
+                    }
+                    "expf" => {
+                        let x = fb(&a[1]);
+                        let r = yuvxyb_math::expf(x);
+                        let t = f64::from(x).exp();
+                        let bad = if x >= 89.0 && x <= 1e38 && r != f32::INFINITY { Some(format!("expf({}) = {} instead of +inf", x, r)) }
+                            else if x <= -88.0 && x >= -1e38 && r != 0.0 { Some(format!("expf({}) = {} instead of 0", x, r)) }
+                            else if x >= -85.0 && x <= 85.0 && ((f64::from(r) - t) / t).abs() > 1e-5 { Some(format!("expf({}) = {} vs {} ", x, r, t)) } else { None };
+                        (r, bad)
+                    }
+                    "cbrtf" => {
+                        let x = fb(&a[1]);
+                        let r = yuvxyb_math::cbrtf(x);
+                        let t = f64::from(x).cbrt();
+                        let ulp = f64::from(f32::from_bits(r.abs().to_bits() + 1)) - f64::from(r.abs());
+                        let bad = if x.is_normal() && (f64::from(r) - t).abs() > ulp { Some(format!("cbrtf({}) = {} vs {} (> 1 ulp)", x, r, t)) }
+                            else if x.is_normal() && yuvxyb_math::cbrtf(-x).to_bits() != (-r).to_bits() { Some(format!("cbrtf not odd at {}", x)) } else { None };
+                        (r, bad)
+                    }
                     _ => panic!("fn"),
                 };
-                out(false, format!("{} returned {:e} (bits {:#x}); UB not observable natively", a[0], r, r.to_bits()));
+                out(bad.is_some(), bad.unwrap_or_else(|| format!("{} returned {:e}: contract holds natively (UB is only observable under Miri)", a[0], r)));
             }
-
             // conv <what> ...: run one public conversion on a 1-pixel image (no-panic / finite / valid-code clauses)
             "conv" => {
                 let fin = |p: &[f32; 3]| p[0].is_finite() && p[1].is_finite() && p[2].is_finite();
